@@ -68,7 +68,36 @@ def buffer_rows(buf):
     return rows
 
 
-def finish(rec, name, sc, cfg, returned=None, final=None, error=None, buffer=None):
+def result_aliases(res):
+    """Pairs of fields of a routine's result tuple that are the same module object or share nnx.Variable objects
+    (e.g. a returned target that is the online network)."""
+    from flax import nnx
+
+    fields = getattr(res, "_fields", None)
+    if not fields:
+        return []
+    mods = []
+    for f in fields:
+        v = getattr(res, f)
+        if isinstance(v, nnx.Module) and not isinstance(v, nnx.Optimizer):
+            try:
+                ids = {id(x) for _, x in nnx.iter_graph(v) if isinstance(x, nnx.Variable)}
+            except Exception:
+                ids = set()
+            mods.append((f, v, ids))
+    out = []
+    for i in range(len(mods)):
+        for j in range(i + 1, len(mods)):
+            a, b = mods[i], mods[j]
+            if a[1] is b[1] or (a[2] and b[2] and a[2] <= b[2]) or (a[2] and b[2] and b[2] <= a[2]):
+                out.append(f"{a[0]}={b[0]}")
+    return out
+
+
+def finish(rec, name, sc, cfg, returned=None, final=None, error=None, buffer=None, result=None):
+    if result is not None and error is None:
+        # components handed back to the caller for continued training must be distinct objects
+        rec.emit("result", aliased=result_aliases(result))
     if buffer is not None and error is None:
         rows = buffer_rows(buffer)
         if rows is not None:
@@ -177,7 +206,7 @@ def _dqn_common(name, sc, mod, train, extra_kwargs, uses_target, per=False, has_
                    epsilon4=-1 if eps is None else int(eps * 4), eps_switch=sw if hasattr(mod, "linear_schedule") else -1, rules=_rules, pairs=[["q_target", "q"]] if uses_target else [],
                    hard_pairs=[["q_target", "q"]] if uses_target else [])
     ret = None if res is None else getattr(res, "global_step", None)
-    return finish(rec, name, sc, cfg, returned=ret, final=final_digests(q=q_net, q_target=tgt), error=err, buffer=buf)
+    return finish(rec, name, sc, cfg, returned=ret, final=final_digests(q=q_net, q_target=tgt), error=err, buffer=buf, result=res)
 
 
 @routine("dqn", warmlearn_doc=-1)
@@ -281,7 +310,7 @@ def _ddpg_like(name, sc, train, double_q, extra, lap=False):
         ret = getattr(res, "global_step", None)
         if ret is None:
             ret = getattr(res, "steps_trained", None)
-    return finish(rec, name, sc, cfg, returned=ret, final=final_digests(policy=policy, q=q, policy_target=ptgt, q_target=qtgt), error=err, buffer=buf)
+    return finish(rec, name, sc, cfg, returned=ret, final=final_digests(policy=policy, q=q, policy_target=ptgt, q_target=qtgt), error=err, buffer=buf, result=res)
 
 
 @routine("ddpg")
